@@ -237,5 +237,26 @@ theorem uhlmann_pure_right (ψ : ι → ℂ) (σ : Matrix ι ι ℂ) (hσ : σ.P
   rw [mul_vecMulVec, trace_vecMulVec, dotProduct_comm]
 
 
+/-! ### general facts -/
+
+
+/-- **`F(ρ, ρ) = (tr ρ)²`**, in particular 1 for a density matrix -/
+theorem uhlmann_self (ρ : Matrix ι ι ℂ) (hρ : ρ.PosSemidef) : uhlmann ρ ρ = (Matrix.trace ρ) ^ 2 := by
+  have h0 : (0 : Matrix ι ι ℂ) ≤ ρ := Matrix.nonneg_iff_posSemidef.mpr hρ
+  unfold uhlmann
+  have e : CFC.sqrt ρ * ρ * CFC.sqrt ρ = ρ * ρ := by
+    have hrr := CFC.sqrt_mul_sqrt_self ρ h0
+    calc CFC.sqrt ρ * ρ * CFC.sqrt ρ = CFC.sqrt ρ * (CFC.sqrt ρ * CFC.sqrt ρ) * CFC.sqrt ρ := by rw [hrr]
+      _ = (CFC.sqrt ρ * CFC.sqrt ρ) * (CFC.sqrt ρ * CFC.sqrt ρ) := by simp only [Matrix.mul_assoc]
+      _ = ρ * ρ := by rw [hrr]
+  rw [e, CFC.sqrt_mul_self ρ h0]
+
+/-- the Uhlmann fidelity of positive semidefinite matrices is a nonnegative real number -/
+theorem uhlmann_nonneg (ρ σ : Matrix ι ι ℂ) : 0 ≤ uhlmann ρ σ := by
+  unfold uhlmann
+  have h := (Matrix.nonneg_iff_posSemidef.mp (CFC.sqrt_nonneg (CFC.sqrt ρ * σ * CFC.sqrt ρ))).trace_nonneg
+  exact pow_nonneg h 2
+
+
 end C17B
 end Graphiq
